@@ -436,6 +436,10 @@ public:
             nev_adj = nev_adjusted(nconv);
             restart(nev_adj, selection);
         }
+        // If the loop ended because maxit was exhausted, the last restart has replaced the Ritz pairs,
+        // so the convergence flags must be recomputed for the pairs that are actually returned
+        if (i >= maxit)
+            nconv = num_converged(tol);
         // Sorting results
         sort_ritzpair(sorting);
 
